@@ -234,11 +234,13 @@ def r01_3(ctx):
         if it["name"] not in ("visit_seq", "visit_map"):
             continue
         b = lib.by_id[it["def"]]
-        pushes = [(bb, t) for bb, t in b.calls() if (fn_of(t) or {}).get("def", "").startswith("std::vec::Vec") and fn_of(t)["name"] == "push"]
-        bad = [fn_of(t)["name"] for bb, t in b.calls() if (fn_of(t) or {}).get("name") in DENY]
-        ok = len(pushes) == 1 and b.on_cycle(pushes[0][0]) and not bad
+        # the method with its same-crate helpers inlined (the loop may live in a `collect_elements(seq)` helper)
+        vsup = Super(lib, b, depth=2)
+        pushes = [(n_, t) for n_, _, t in vsup.calls() if (fn_of(t) or {}).get("def", "").startswith("std::vec::Vec") and fn_of(t)["name"] == "push"]
+        bad = [fn_of(t)["name"] for _, _, t in vsup.calls() if (fn_of(t) or {}).get("name") in DENY]
+        ok = len(pushes) == 1 and vsup.on_cycle(pushes[0][0]) and not bad
         if ok:
-            tr = trace(b, pushes[0][1]["args"][1])
+            tr = strace(vsup, pushes[0][0], pushes[0][1]["args"][1])
             src = tr.origin[2] if tr.origin and tr.origin[0] == "call" else None
             # element comes from the accessor's next_* result
             ok = bool(src and (fn_of(src) or {}).get("name") in ("next_element", "next_entry", "next_element_seed", "next_entry_seed"))
